@@ -122,6 +122,8 @@ def gen_case(rng, cfg):
         qn = rng.choice(QUOTERS)
         L, m, d = target_len(rng, big)
         spec, got = make_text(rng, qn, L)
+        if rng.random() < 0.15:
+            spec = dict(spec, sub=True)  # a str subclass: the quoter first copies it with str()
         return {"shape": "qcall:" + qn, "m": m, "d": d if got == L else None, "setup": [], "target": {"op": "qcall", "args": [qn, spec]}}
     if r < 0.42:
         un = rng.choice(UNQUOTERS)
